@@ -423,6 +423,45 @@ class ExtMixin(object):
                     out = ListV(list(src.items), "list")
                     self.m_ListV_sort(out, [], kwargs, node)
                     return out
+            if set(kwargs) <= {"key", "reverse"}:
+                # a list of known items, a key function that gives a concrete string / number for each of them and a
+                # literal reverse flag: the library's stable sort by those keys
+                src = self.as_iterable(v, node)
+                rev = kwargs.get("reverse", FALSE)
+                if isinstance(src, DictV):
+                    src = ListV([k for k, _ in src.items.values()], "list")
+                if isinstance(src, ListV) and not getattr(src, "tail", None) and isinstance(rev, Const) and isinstance(rev.v, bool):
+                    keys = []
+                    for it in src.items:
+                        kf = kwargs.get("key")
+                        if isinstance(kf, ExtV) and kf.name.startswith("builtins.str.") and isinstance(it, Const) \
+                                and isinstance(it.v, str) \
+                                and kf.name.split(".")[-1] in ("lower", "upper", "casefold", "strip", "swapcase", "title", "capitalize"):
+                            kv = Const(getattr(str, kf.name.split(".")[-1])(it.v))      # unbound pure str method
+                        else:
+                            kv = self.call(kf, [it], {}) if kf is not None else it
+                        if isinstance(kv, Num) and kv.const() is not None:
+                            keys.append((0, kv.const()))
+                        elif isinstance(kv, Const) and isinstance(kv.v, (str, int, float)) and not isinstance(kv.v, bool):
+                            keys.append((1 if isinstance(kv.v, str) else 0, kv.v))
+                        else:
+                            keys = None
+                            break
+                    if keys is not None and len(set(k[0] for k in keys)) <= 1:
+                        order = sorted(range(len(keys)), key=lambda j: keys[j][1], reverse=rev.v)
+                        if rev.v:
+                            # reverse=True keeps the original order of equal keys
+                            order = sorted(range(len(keys)), key=lambda j: keys[j][1])
+                            groups, out_o = [], []
+                            for j in order:
+                                if groups and keys[groups[-1][0]][1] == keys[j][1]:
+                                    groups[-1].append(j)
+                                else:
+                                    groups.append([j])
+                            for g in reversed(groups):
+                                out_o.extend(g)
+                            order = out_o
+                        return ListV([src.items[j] for j in order], "list")
             self.err(node, "sorted with key/reverse")
         if isinstance(v, DictV):
             v = ListV([k for k, _ in v.items.values()], "list")
